@@ -336,6 +336,12 @@ def separate_procs(sel, seed, project_display, proc_internals, hide_undoc):
     L += [f"function spnew{S}(v) result(r)", f"!! {w1}", "!!", f"!! {w2}", "integer, intent(in) :: v", f"type(spct{S}) :: r", "r%v = v", f"end function spnew{S}"]
     ent(f"file:sp/module:{mod}/proc:spnew{S}", [w1, w2], "show" if "private" in D else "either", "proc", f"proc/spnew{S}.html" if "private" in D else None, f"module/{mod}.html")
     L.append(f"end module {mod}")
+    # another module with a generic interface named like the public procedure above (two pages of one name in two directories)
+    w, w2 = W(), W()
+    L += [f"module spo{S}", f"!! {W()}", "implicit none", f"interface sppub{S}", f"!! {w}", f"module procedure spspec{S}", "end interface", "contains",
+          f"subroutine spspec{S}(x)", f"!! {w2}", "integer, intent(in) :: x", f"end subroutine spspec{S}", f"end module spo{S}"]
+    ent(f"file:sp/module:spo{S}/interface:sppub{S}", [w], "show" if "public" in D else "hide", "interface", f"interface/sppub{S}.html" if "public" in D else None, f"module/spo{S}.html")
+    ent(f"file:sp/module:spo{S}/proc:spspec{S}", [w2], "show" if "public" in D else "hide", "proc", f"proc/spspec{S}.html" if "public" in D else None, f"module/spo{S}.html")
     w = W()
     L += [f"submodule ({mod}) {sub}", f"!! {w}", "implicit none", "contains"] + impl + [f"end submodule {sub}"]
     ent(f"file:sp/submodule:{sub}", [w], "either", "submodule")
